@@ -376,6 +376,10 @@ class Monitor:
                         P, sP = S * ratio, sS * ratio
                     else:
                         P, sP = S, sS
+                # regime guard (on the REFERENCE only): a documented update that moves the block by more than 1e6 times the
+                # scale of its parameters and gradients is numerical blow-up by configuration, not a regime the tolerances model
+                if abs(lr) * float(sP.abs().max() if sP.numel() else 0.0) > 1e6 * (float(W.abs().max() if W.numel() else 0.0) + float(s["G"].abs().max() if s["G"].numel() else 0.0) + 1e-30):
+                    raise OutOfDomain("the documented update exceeds 1e6 x the parameter/gradient scale (diverging configuration)")
                 # 7 decoupled decay
                 if wd != 0.0 and decoupled:
                     P = P + wd * W
@@ -430,8 +434,10 @@ class Monitor:
         bound += 2 * matref.inverse_root_oracle.last_shift / (eps * r)
         if bc2 != 1.0:
             bound += 4 * bc_relerr(h["betas"][1], t) / r  # the bias correction 1-beta2^t is carried in float32
-        if bound > 0.1:
-            self.c["root_checks_weak"] += 1
+        fin = torch.finfo(X.dtype)
+        xmax = float(Xs.abs().max())
+        if bound > 0.1 or xmax > 1e-3 * float(fin.max) or xmax < 1e3 * float(fin.tiny):
+            self.c["root_checks_weak"] += 1  # beyond the accuracy bound or outside the storage dtype's range
             return
         err = matref.rel_fro(X, Xs)
         self.c["root_checks"] += 1
